@@ -104,6 +104,7 @@ type ContractSet struct {
 	Axioms   []*Clause
 	Reveals  []*Reveal
 	Stale    []string // contracts whose function no longer exists
+	Rebound  []string // contract locals re-bound to renamed code locals
 	Files    map[string]string // pkg short -> file path used
 	Sources  []string          // provenance notes
 }
